@@ -170,8 +170,12 @@ func (s *Service) Start(ctx context.Context) error {
 		go func() {
 			defer s.wg.Done()
 			defer close(mainSignal)
-			defer s.isRunning.Store(false)
+			// (deferred calls run last-in-first-out: isRunning must be
+			// cleared before isFinished is set, because Wait returns as
+			// soon as it sees isFinished and callers then expect
+			// Running() to be false.)
 			defer s.isFinished.Store(true)
+			defer s.isRunning.Store(false)
 			if s.Cleanup != nil {
 				cleanup := s.Cleanup
 				// this catches a panic during shutdown
